@@ -273,6 +273,13 @@ def reorderGlyphs(font: ttLib.TTFont, new_glyph_order: List[str]):
             varIdxMap.mapping = {g: i for i, g in enumerate(old_glyph_order)}
             setattr(font[tag].table, attr, varIdxMap)
 
+    # A CFF2 top dict takes its charset from the font's glyph order at the time it
+    # is first accessed, and pairs its charstrings with those names: make sure that
+    # happens while the old glyph order is still in place.
+    for tag in ["CFF ", "CFF2"]:
+        if tag in font:
+            font[tag].cff.topDictIndex[0].CharStrings
+
     font.setGlyphOrder(new_glyph_order)
 
     coverage_containers = {"GDEF", "GPOS", "GSUB", "MATH"}
